@@ -43,6 +43,9 @@ CHECKS = {
  "C11": (True, "E1", "exploration", E1,
   "All reflection vectors over {+-1/2,+-1/3,+-2,-3/2,0,+-1} with non-zero last entry (length <=3, thorough 4) x gains x three construction routes: parcor must return them last first (and raise ParCorError exactly at the first |k|=1), step-up of the result rebuilds the filter, levinson error = r0*prod(1-k^2); all multisets of 12 root factors (real roots 0,+-1/2,3/4,+-1,+-2 and conjugate pairs inside/on/outside the circle) up to degree 4 x 4 leading coefficients x 2 numerators for parcor_stable, whose answer is known by construction.",
   "Degree <= 4; exact rational coefficients."),
+ "C17": (True, "E3", "model_checking", E3,
+  "The real lazy_io is loaded as a private module copy with threading replaced by a virtual module and pyaudio/_portaudio by a strict recording fake; every main program over {play, pause, resume, stop, close} (1 player with <=3 control operations at deviation bound 2, 2 players with <=1 at bound 1; thorough: 1 player <=4 ops bound 3, 2 players <=2 ops bound 2, 3 players) x wait x with-block/explicit close is executed under ALL schedules within the bound (pre-emptions of an enabled thread, or not yielding at a device write), executions run to completion; each execution is checked for deadlock/livelock, device bytes = prefix of iterable+padding in whole chunks (complete when wait and never stopped), device call protocol, exactly one close per stream, one terminate after them, no live thread, play refused, second close a no-op.",
+  "GIL-atomic attribute access; scheduling points = virtual threading ops, backend calls, lines touching attributes assigned/mutated outside __init__ (AST scan); fake backend semantics; deviation bound."),
 }
 
 NOT_YET = "check not built yet in this session; see DESIGN.md section 4 for the planned model-checking harness"
